@@ -489,6 +489,16 @@ def run_check(pid: str, tier: str, seed: int) -> int:
             bad = [n for n in failed_decls(m, res[m]) if n in cone_fn or not cone_fn or n.startswith("<")]
             if bad:
                 lean_fail_detail.append({"module": m, "obligations": bad, "lean_output": res[m].output[:4000]})
+    def back_end(o: str) -> str:
+        return ("extractor frame analysis (syntactic)" if o.startswith("frame.") else "glue fingerprint (syntactic)" if o.startswith("glue.")
+                else "grammar comparison g4/ebnf/Lean transcription (syntactic)" if o.startswith("grammar.") else "extractor call graph (syntactic)" if o.startswith("callgraph.")
+                else "extractor" if o.startswith("extract.") else "Lean 4.33 kernel (equivalence with the baseline snapshot)" if o.startswith("Equiv.") else "Lean 4.33 kernel")
+    by_be: dict[str, list[int]] = {}
+    for o in obligations:
+        r = by_be.setdefault(back_end(o), [0, 0])
+        r[0] += 1
+        r[1] += o in discharged
+    cov["obligations_by_back_end"] = {k: {"obligations": v[0], "discharged": v[1]} for k, v in by_be.items()}
     cov["obligations"] = len(obligations)
     cov["discharged"] = len(discharged)
     cov["obligation_names"] = obligations
